@@ -4,8 +4,14 @@ import (
 	"bytes"
 	"encoding/json"
 	"fmt"
+	"os"
+	"path/filepath"
+	"strings"
+
+	"github.com/gabriel-vasile/mimetype"
 
 	"verifharness/internal/fw"
+	"verifharness/internal/gen"
 	"verifharness/internal/lib"
 )
 
@@ -90,6 +96,27 @@ func c07Bases(c *fw.Ctx) []c07Base {
 	return bs
 }
 
+// c07File judges DetectFile(path) by the bytes the file really delivers (read before
+// and after; a file whose content changed in between is skipped).
+func c07File(c *fw.Ctx, path string) {
+	before, err := os.ReadFile(path)
+	if err != nil {
+		c.Count("files_unreadable", 1)
+		return
+	}
+	for _, lim := range []uint32{0, 3072, 1, 16, uint32(len(before)), uint32(len(before) + 1), uint32(len(before) / 2)} {
+		nv := c.NViol()
+		c07Judge(c, "file", before, lim, "DetectFile:"+path, "")
+		if c.NViol() != nv {
+			after, _ := os.ReadFile(path)
+			if !bytes.Equal(before, after) {
+				c.Count("files_changed_while_judged", 1)
+			}
+		}
+		c.Count("files_judged", 1)
+	}
+}
+
 func c07Judge(c *fw.Ctx, kind string, in []byte, limit uint32, entry string, classKey string) {
 	h := lib.Header(in, limit)
 	T := c07T(h)
@@ -97,7 +124,14 @@ func c07Judge(c *fw.Ctx, kind string, in []byte, limit uint32, entry string, cla
 	c.Trace(func() (string, any) { return key, fw.MkInCase(kind, in, limit, entry, "") })
 	var ch lib.Chain
 	ok := c.Guard(key, func() any { return fw.MkInCase(kind, in, limit, entry, "panic") }, func() {
-		m, err := detect(in, limit, entry)
+		var m *mimetype.MIME
+		var err error
+		if strings.HasPrefix(entry, "DetectFile:") {
+			mimetype.SetLimit(limit)
+			m, err = mimetype.DetectFile(strings.TrimPrefix(entry, "DetectFile:"))
+		} else {
+			m, err = detect(in, limit, entry)
+		}
 		anomalyC02(c, m, err)
 		ch = lib.ChainOf(m)
 	})
@@ -296,6 +330,32 @@ func c07Run(c *fw.Ctx, b fw.Batch) {
 				}
 			}
 		}
+	case "files":
+		// DetectFile: files whose stat size says nothing about their content (procfs: size 0,
+		// content with NUL bytes / pure text) and ordinary temp files of both classes
+		for _, pf := range []string{"/proc/self/cmdline", "/proc/self/environ", "/proc/self/auxv", "/proc/version", "/proc/self/comm", "/proc/filesystems"} {
+			c07File(c, pf)
+		}
+		dir, err := os.MkdirTemp("", "verif-c07-")
+		if err != nil {
+			panic("verif harness: " + err.Error())
+		}
+		defer os.RemoveAll(dir)
+		seeds := lib.Seeds()
+		for i := 0; i < 120; i++ {
+			x := append([]byte{}, seeds[c.Rand.Intn(len(seeds))]...)
+			if i%3 == 0 {
+				x = []byte(gen.TextTails()[c.Rand.Intn(40)])
+			}
+			if i%5 == 0 && len(x) > 0 {
+				x[c.Rand.Intn(len(x))] = byte(c.Rand.Intn(0x20))
+			}
+			f := filepath.Join(dir, "f.bin")
+			if os.WriteFile(f, x, 0o600) != nil {
+				continue
+			}
+			c07File(c, f)
+		}
 	case "huge":
 		// size thresholds: the first binary data byte far into a long clean text
 		for _, off := range []int{4095, 4096, 65535, 65536, 1<<20 - 1, 1 << 20, 1<<20 + 1, 1<<21 + 7} {
@@ -352,6 +412,7 @@ func init() {
 			bs = append(bs, batches("bom", 2, 0, 900)...)
 			bs = append(bs, batches("seeds", 4, 0, 900)...)
 			bs = append(bs, batches("huge", 1, 0, 900)...)
+			bs = append(bs, batches("files", 1, 0, 900)...)
 			n := 100000
 			if tier == "thorough" {
 				n = 15000000
@@ -365,6 +426,17 @@ func init() {
 			if err != nil {
 				fmt.Println("bad payload:", err)
 				return
+			}
+			if strings.HasPrefix(ic.Entry, "DetectFile:") {
+				// the file is read again: procfs content belongs to the process
+				if cur, err := os.ReadFile(strings.TrimPrefix(ic.Entry, "DetectFile:")); err == nil {
+					ic.In = cur
+				} else {
+					f := filepath.Join(os.TempDir(), fmt.Sprintf("verif-c07-replay-%d.bin", os.Getpid()))
+					os.WriteFile(f, ic.In, 0o600)
+					defer os.Remove(f)
+					ic.Entry = "DetectFile:" + f
+				}
 			}
 			c07Judge(c, ic.Kind, ic.In, ic.Limit, ic.Entry, "")
 		},
